@@ -43,6 +43,8 @@ Docs ==
   \cup {O2("id", v, "!x", Num(1)) : v \in Shapes}
   \cup {O2("schedule", v, "action", GoodAction) : v \in Shapes \cup {Str("+whenever"), Str("* * *"), Str("+1h")}}   \* scheduled rules
   \cup {O1("rule", O2("when", GoodWhen, k, v)) : k \in {"action", "actions", "condition"}, v \in Shapes}      \* a rule-shaped fact the canary event reaches
+  \cup {O2(t[1], t[2], k, v) : t \in {<<"ttl", Str("1h")>>, <<"expires", Num(2000000000)>>},      \* an expiration next to every unusual shape
+                               k \in {"rule", "when", "deleteWith", "id", "action"}, v \in Shapes}
 
 VARIABLE d
 Init == d \in Docs
